@@ -1,0 +1,33 @@
+//go:build verif
+// +build verif
+
+package leveldb
+
+import "sync/atomic"
+
+// Hook points for the external verification harness (/verif); compiled only with -tags verif.
+// verifYield(p) marks a window the checker may stretch; verifEvent(k, a, b) reports a protocol event.
+
+type verifHooks struct {
+	yield func(point int)
+	event func(kind int, a, b uint64)
+}
+
+var verifHooksV atomic.Value // *verifHooks
+
+// VerifSetHooks installs (or, with nils, removes) the process-wide hook functions.
+func VerifSetHooks(yield func(point int), event func(kind int, a, b uint64)) {
+	verifHooksV.Store(&verifHooks{yield: yield, event: event})
+}
+
+func verifYield(p int) {
+	if h, _ := verifHooksV.Load().(*verifHooks); h != nil && h.yield != nil {
+		h.yield(p)
+	}
+}
+
+func verifEvent(k int, a, b uint64) {
+	if h, _ := verifHooksV.Load().(*verifHooks); h != nil && h.event != nil {
+		h.event(k, a, b)
+	}
+}
